@@ -93,7 +93,7 @@ LoginLinesOnce(r, hh) ==
         LET ids == {r.stream[i].id : i \in {j \in 1..Len(r.stream) : r.stream[j].kind = "login"}}
             n == Cardinality({j \in 1..Len(r.stream) : r.stream[j].kind = "login"})
             want == UNION {{hh.lg[p][k].id : k \in 1..Len(hh.lg[p])} : p \in Pids}
-        IN ids = want /\ n = Cardinality(want)
+        IN ids = want /\ n = Cardinality(want) /\ r.failed = r.failedwant
 
 Holds(n, hh, oo, r) ==
     CASE n = "Identity"     -> IdentityOK(hh, oo)
